@@ -26,8 +26,10 @@ Arguments w_prepare {W}. Arguments w_write1 {W}. Arguments w_writen {W}.
 Arguments w_skip {W}. Arguments w_pushhandle {W}.
 
 (* ---- specification-level byte source / sink ------------------------------ *)
-(* ListReader: remaining input and the out-of-band handle table. *)
-Definition LR : Type := bytes * list Z.
+(* ListReader: the remaining input.  Handle references are resolved by the
+   identity (reference = handle value): the specification-level out-of-band
+   channel is stateless.  The table-based channel of the harness is [tlr_ops]. *)
+Definition LR : Type := bytes.
 
 Definition take_n (n : N) (bs : bytes) : option (bytes * bytes) :=
   if n <=? N.of_nat (length bs)
@@ -35,6 +37,38 @@ Definition take_n (n : N) (bs : bytes) : option (bytes * bytes) :=
   else None.
 
 Definition lr_ops : rops LR := {|
+  r_ensure := fun n r => if n <=? N.of_nat (length r) then Ok tt r else Err EReadLimit r;
+  r_read1 := fun r => match r with
+                      | b :: bs => Ok b bs
+                      | [] => Err EReadLimit r
+                      end;
+  r_readn := fun n r => match take_n n r with
+                        | Some (a, b) => Ok a b
+                        | None => Err EReadLimit r
+                        end;
+  r_skip := fun n r => match take_n n r with
+                       | Some (_, b) => Ok tt b
+                       | None => Err EReadLimit r
+                       end;
+  r_gethandle := fun ref r => Ok ref r
+|}.
+
+(* ListWriter: the bytes produced so far; PushHandle returns the handle value
+   itself as the reference. *)
+Definition LW : Type := bytes.
+
+Definition lw_ops : wops LW := {|
+  w_prepare := fun _ w => Ok tt w;
+  w_write1 := fun b w => Ok tt (w ++ [b]);
+  w_writen := fun bs w => Ok tt (w ++ bs);
+  w_skip := fun n v w => Ok tt (w ++ repeat v (N.to_nat n));
+  w_pushhandle := fun h w => Ok h w
+|}.
+
+(* Table-based out-of-band channel (the harness's instrumented reader/writer
+   in table mode): references index a handle table. *)
+Definition TLR : Type := bytes * list Z.
+Definition tlr_ops : rops TLR := {|
   r_ensure := fun n r => if n <=? N.of_nat (length (fst r)) then Ok tt r else Err EReadLimit r;
   r_read1 := fun r => match fst r with
                       | b :: bs => Ok b (bs, snd r)
@@ -55,10 +89,8 @@ Definition lr_ops : rops LR := {|
            else Err EHandleRef r
 |}.
 
-(* ListWriter: bytes produced so far and the handles pushed out of band. *)
-Definition LW : Type := bytes * list Z.
-
-Definition lw_ops : wops LW := {|
+Definition TLW : Type := bytes * list Z.
+Definition tlw_ops : wops TLW := {|
   w_prepare := fun _ w => Ok tt w;
   w_write1 := fun b w => Ok tt (fst w ++ [b], snd w);
   w_writen := fun bs w => Ok tt (fst w ++ bs, snd w);
@@ -135,11 +167,11 @@ Definition bounded_write_padding {W} (o : wops W) (v : N) (b : Bounded W) : res 
 (* ---- buffer readers (utility/buffer_reader.h, pedantic_buffer_reader.h) --- *)
 (* state: the whole buffer, size_ = its length, index_.  After the repair of
    BufferReader both have the same checks. *)
-Record bufr := { br_buf : bytes; br_idx : N; br_handles : list Z }.
+Record bufr := { br_buf : bytes; br_idx : N }.
 
 Definition br_size (r : bufr) : N := N.of_nat (length (br_buf r)).
 Definition br_adv (r : bufr) (n : N) : bufr :=
-  {| br_buf := br_buf r; br_idx := add64 (br_idx r) n; br_handles := br_handles r |}.
+  {| br_buf := br_buf r; br_idx := add64 (br_idx r) n |}.
 Definition br_slice (r : bufr) (n : N) : bytes :=
   firstn (N.to_nat n) (skipn (N.to_nat (br_idx r)) (br_buf r)).
 
@@ -155,11 +187,7 @@ Definition bufr_ops : rops bufr := {|
   r_skip := fun n r =>
       if sub64 (br_size r) (br_idx r) <? n then Err EReadLimit r
       else Ok tt (br_adv r n);
-  r_gethandle := fun ref r =>
-      if (ref =? -1)%Z then Ok (-1)%Z r
-      else if (0 <=? ref)%Z && (ref <? Z.of_nat (length (br_handles r)))%Z
-           then Ok (nth (Z.to_nat ref) (br_handles r) (-1)%Z) r
-           else Err EHandleRef r
+  r_gethandle := fun ref r => Ok ref r
 |}.
 
 (* ---- buffer writers ------------------------------------------------------- *)
@@ -168,13 +196,12 @@ Definition bufr_ops : rops bufr := {|
    call checked) from BufferWriter (only Prepare checked; an unchecked call
    past the capacity is recorded in [bw_oob], the model's stand-in for the
    out-of-bounds store the real code would perform). *)
-Record bufw := { bw_out : bytes; bw_cap : N; bw_oob : bool; bw_handles : list Z }.
+Record bufw := { bw_out : bytes; bw_cap : N; bw_oob : bool }.
 
 Definition bw_idx (w : bufw) : N := N.of_nat (length (bw_out w)).
 Definition bw_put (w : bufw) (bs : bytes) : bufw :=
   {| bw_out := bw_out w ++ bs; bw_cap := bw_cap w;
-     bw_oob := bw_oob w || (bw_cap w <? bw_idx w + N.of_nat (length bs));
-     bw_handles := bw_handles w |}.
+     bw_oob := bw_oob w || (bw_cap w <? bw_idx w + N.of_nat (length bs)) |}.
 
 Definition bufw_ops (checked : bool) : wops bufw := {|
   w_prepare := fun n w =>
@@ -188,11 +215,7 @@ Definition bufw_ops (checked : bool) : wops bufw := {|
   w_skip := fun n v w =>
       if checked && (sub64 (bw_cap w) (bw_idx w) <? n) then Err EWriteLimit w
       else Ok tt (bw_put w (repeat v (N.to_nat n)));
-  w_pushhandle := fun h w =>
-      if (h <? 0)%Z then Ok (-1)%Z w
-      else Ok (Z.of_nat (length (bw_handles w)))
-              {| bw_out := bw_out w; bw_cap := bw_cap w; bw_oob := bw_oob w;
-                 bw_handles := bw_handles w ++ [h] |}
+  w_pushhandle := fun h w => Ok h w
 |}.
 
 (* ---- instrumentation: call log and fault injection (C10, C15) ----------- *)
